@@ -747,8 +747,11 @@ def engine_traffic(seed, n_requests, real_crypto=False):
     E = impl_engine.ImplEngine(scripted_crypto=not real_crypto)
     out = []
     try:
+        fixed = [{"version": v, "ts": None, "async": None, "bopt": None, "maxsize": None,
+                  "items": [{"op": "unsupported", "bid": None, "crypto": None, "code": c}]}
+                 for (v, c) in ((12, 13), (14, 4), (20, 9), (10, 26))]
         for i in range(n_requests):
-            req = g.request()
+            req = fixed[i] if i < len(fixed) else g.request()
             line = {"cmd": "req", "now": 1000 + i, "id": g.ident(req), "req": req}
             v = req["version"]
             try:
